@@ -65,6 +65,8 @@ def gen_entity(rng, eid, tag):
         d["aa"] = {"keys": keys(), "attribute_service": eps("aa", lo=1)}
     if rng.random() < 0.4:
         d["entity_categories"] = rng.sample(CATS, rng.randint(1, 2))
+    if rng.random() < 0.25:
+        d["valueless_entity_attribute"] = "urn:example:verif:flag"
     if rng.random() < 0.3:
         # the categories the entity honours as a releasing party - another attribute, another claim
         d["entity_category_support"] = rng.sample(CATS, rng.randint(1, 2))
@@ -90,7 +92,11 @@ def gen_docset(rng):
         ids = rng.sample(POOL[:5], rng.randint(1, 4))
         ents = [gen_entity(rng, e, "s%d" % s) for e in ids]
         wrap = rng.random() < 0.6 or len(ents) > 1
-        sources.append({"entities": ents, "wrapped": wrap, "valid_until": rng.choice([None, None, "future", "past"]) if wrap else None})
+        src = {"entities": ents, "wrapped": wrap, "valid_until": rng.choice([None, None, "future", "past"]) if wrap else None}
+        if wrap and len(ents) >= 2 and rng.random() < 0.4:
+            # an aggregate of aggregates: the entities from this position on sit in an EntitiesDescriptor of their own inside the document
+            src["nested"] = {"from": rng.randint(1, len(ents) - 1), "valid_until": rng.choice([None, None, "future", "past"])}
+        sources.append(src)
     return sources
 
 
@@ -130,7 +136,12 @@ def render(source, offsets=True):
         e2["valid_until"] = vu(e["valid_until"], e["eid"], offsets=offsets and not source["wrapped"])
         ents.append(e2)
     if source["wrapped"]:
-        return mdgen.entities(ents, valid_until=vu(source["valid_until"], "doc:" + ents[0]["eid"] if ents else "doc", offsets=offsets))
+        nested = []
+        if source.get("nested"):
+            k = source["nested"]["from"]
+            nested = [mdgen.entities(ents[k:], valid_until=vu(source["nested"]["valid_until"], "nested:" + ents[k]["eid"], offsets=False), name="verif-inner")]
+            ents = ents[:k]
+        return mdgen.entities(ents, valid_until=vu(source["valid_until"], "doc:" + ents[0]["eid"] if ents else "doc", offsets=offsets), nested=nested)
     return mdgen.entity(ents[0])
 
 
@@ -301,9 +312,11 @@ def compare(case, store, sources, viol, counters, sigs, tag=None):
         if src["wrapped"] and src["valid_until"] == "past":
             continue
         seen_here = set()
-        for e in src["entities"]:
+        for ei, e in enumerate(src["entities"]):
             if e["valid_until"] == "past" or e["eid"] in seen_here:
                 continue
+            if src.get("nested") and ei >= src["nested"]["from"] and src["nested"]["valid_until"] == "past":
+                continue        # (inside an inner aggregate whose own validUntil has passed)
             seen_here.add(e["eid"])
             if not (e.get("idp") or e.get("sp") or e.get("aa")):
                 continue
@@ -425,6 +438,23 @@ def compare(case, store, sources, viol, counters, sigs, tag=None):
             adm = [sorted(e.get("entity_category_support") or []) for e in decls]
             if got not in adm:
                 bad("C16/entity-categories-differ", "%s supported_entity_categories -> %r, declared %r" % (eid, got, adm))
+            # all entity attributes by name
+            hit("entity_attribute_lookups")
+            try:
+                ea = store.entity_attributes(eid)
+                got = dict((k, sorted(v)) for k, v in ea.items() if v)
+            except Exception as exc:
+                got = "raise:" + type(exc).__name__
+            adm = []
+            for e in decls:
+                want = {}
+                if e.get("entity_categories"):
+                    want["http://macedir.org/entity-category"] = sorted(e["entity_categories"])
+                if e.get("entity_category_support"):
+                    want["http://macedir.org/entity-category-support"] = sorted(e["entity_category_support"])
+                adm.append(want)
+            if got not in adm:
+                bad("C16/entity-attributes-differ", "%s entity_attributes -> %r, declared %r" % (eid, got, adm))
             hit("requirement_lookups")
             try:
                 ar = store.attribute_requirement(eid)
@@ -699,7 +729,28 @@ def run_roundtrip(case, ctx, viol, counters, sigs):
     if arrangement in ("encryption-pair-is-signing-pair", "both"):
         eks = (ki,)
         cnf["encryption_keypairs"] = [{"key_file": fed.key(ki)[0], "cert_file": fed.key(ki)[1]}]
-    xml = fed.metadata_of(cnf)
+    # the certificate file as administrators leave it: with a blank line at the end, with the text dump `openssl x509 -text` puts in front,
+    # with CRLF line ends - the same certificate
+    shape = ["as-is", "trailing-blank-line", "leading-text", "crlf"][(case["k"] // 2 + case["k"] // 8) % 4]
+    if shape != "as-is":
+        pem = open(cnf["cert_file"]).read()
+        if shape == "trailing-blank-line":
+            pem = pem.rstrip("\n") + "\n\n"
+        elif shape == "leading-text":
+            pem = "Certificate:\n    Data:\n        Version: 3 (0x2)\n    Signature Algorithm: sha256WithRSAEncryption\n" + pem
+        else:
+            pem = pem.replace("\r\n", "\n").replace("\n", "\r\n")
+        path = os.path.join(ctx.scratch, "rt-cert-%d-%s.pem" % (case["k"], shape))
+        with open(path, "w", newline="") as f:
+            f.write(pem)
+        cnf["cert_file"] = path
+    arrangement = arrangement + "/certificate-file-" + shape
+    try:
+        xml = fed.metadata_of(cnf)
+    except Exception as exc:
+        viol.append({"key": "C16/generated-metadata-does-not-load-back-to-configured-keys",
+                     "what": "%s (%s): generating the metadata raised %r" % (host, arrangement, exc)})
+        return
     store = new_store()
     store.imp([{"class": "saml2_tophat.mdstore.InMemoryMetaData", "metadata": [(xml,)]}])
     eid = host + "/md"
